@@ -45,6 +45,7 @@ func nRecFiles(p int) int {
 // from the menu of cfg (operators applied in menu order).
 func genP2Deviations(g *core.Gen, cfg scen.P2Config, full bool, D int, mk func(d []scen.Dmg) *p2Case) {
 	menu := scen.DataMenu(cfg.Sizes, cfg.Slice, nRecFiles(cfg.Blocks), full)
+	menu = append(menu, scen.DupRecMenu(nRecFiles(cfg.Blocks))...)
 	g.Emit(mk(nil))
 	for d := 1; d <= D; d++ {
 		forCombos(len(menu), d, func(ix []int) {
